@@ -41,7 +41,9 @@
         release_self <to_transferred|release>   to_transferred: owner:=Transferred, claimed_twice:=false,
               anyone_waiting:=false (since salsa 451fce7; the dg unblock line of the waiters follows);
               release: marker (the following `release` line removes the entry)
-        release_panicking <Panicked|Cancelled>  marker
+        release_panicking <Panicked|Cancelled> [tok=<0..3|?>]   marker; with `tok=` (raw CancellationToken
+              bits of the releasing handle: 1 = cancel requested, 2 = local cancellation disabled) the
+              result is checked: `Cancelled` ⇔ tok = 1 (`tok=?`: value raced, not checked)
         mark_as_transfer_target <T:t<N>|X|none> anyone_waiting:=true, is_transfer_target:=true on <key>;
               the returned owner is compared (`none` ⇔ no entry)
         transfer <new_owner_key>             on <key>: owner:=Transferred, claimed_twice:=false
@@ -378,6 +380,17 @@ def applySync (d : DState) (op : String) (me k : Nat) (args : List String) : Out
     | "release_panicking", [r] => do
       let _ ← res? r
       some (.sync d none)
+    | "release_panicking", [r, tok] => do
+      let r ← res? r
+      if !tok.startsWith "tok=" then none
+      let bits := (tok.drop 4).toString
+      if bits = "?" then some (.sync d none)
+      else
+        let b ← nat? bits
+        if b > 3 then none
+        -- release_panicking: `Cancelled` iff `should_trigger_local_cancellation()` iff the token is exactly 1
+        let want : WaitResult := if b = 1 then .cancelled else .panicked
+        if r = want then some (.sync d none) else some (.sync d (some (fmtRes want)))
     | "mark_as_transfer_target", [o] =>
       match cur with
       | none => if o = "none" then some (.sync d none) else some (.sync d (some "none"))
